@@ -21,7 +21,7 @@
    No proofs here.  Streams: c18.wops c18.rprog c18.hdr c18.ranges *)
 From Coq Require Import List NArith ZArith Bool.
 From Coq.Strings Require Import Byte.
-Require Import GV.Base.Res GV.Base.Byt GV.Base.Ints GV.Model.Leb GV.Model.Prim.
+Require Import GV.Base.Res GV.Base.Byt GV.Base.Ints GV.Model.Leb GV.Model.Prim GV.Model.Attr.
 Import ListNotations.
 Local Open Scope N_scope.
 
@@ -560,3 +560,24 @@ Fixpoint p_raw_ranges (fuel : nat) (asz : N) (acc : list N) : prog (list N) :=
           else if b =? mask_of asz then p_raw_ranges f asz (acc ++ [1; e])
           else p_raw_ranges f asz (acc ++ [2; b; e]))))
   end.
+
+(* src/read/unit.rs parse_attribute, the three forms that can hold a section offset: DW_FORM_data4 (6) and
+   DW_FORM_data8 (7) are read with read_offset — so that relocations apply — exactly when the format
+   matches and Attr.allow_section_offset accepts (name, version) (DWARF 2/3 loclistptr/lineptr/macptr/
+   rangelistptr classes), with read_u32/read_u64 otherwise; DW_FORM_sec_offset (23) always with
+   read_offset.  Result [1; v] for AttributeValue::SecOffset(v), [0; v] for Data4/Data8(v). *)
+Definition p_attr_word (fmt64 : bool) (ver name form : N) : prog (list N) :=
+  if form =? 6 then
+    (if negb fmt64 && allow_section_offset name ver then POffset false (fun v => PRet [1; v])
+     else PU 4 (fun v => PRet [0; v]))
+  else if form =? 7 then
+    (if fmt64 && allow_section_offset name ver then POffset true (fun v => PRet [1; v])
+     else PU 8 (fun v => PRet [0; v]))
+  else if form =? 23 then POffset fmt64 (fun v => PRet [1; v])
+  else PFail EUnknownForm.
+
+(* the attribute names whose DWARF 2/3 classes include a section-offset class *)
+Definition dwarf3_secoff_names : list N :=
+  [DW_AT_location; DW_AT_stmt_list; DW_AT_string_length; DW_AT_return_addr; DW_AT_start_scope;
+   DW_AT_frame_base; DW_AT_macro_info; DW_AT_segment; DW_AT_static_link; DW_AT_use_location;
+   DW_AT_vtable_elem_location; DW_AT_data_member_location; DW_AT_ranges].
